@@ -539,7 +539,12 @@ func swapMode(seed int64, runs, steps int, out *json.Encoder) error {
 			if rng.Intn(10) == 0 {
 				amt = minOrder - 1 // below the minimum
 			}
-			switch op := rng.Intn(10); {
+			op := rng.Intn(10)
+			scripted := 0
+			if r%2 == 1 && k < 2 { // the imported orders first: deleted by their sellers, once and again
+				op, scripted = 5, 1
+			}
+			switch {
 			case op < 3:
 				l.Op, l.A, l.Amt = "create", fmt.Sprintf("a%d", who), amt
 				id := make([]byte, 20)
@@ -555,6 +560,9 @@ func swapMode(seed int64, runs, steps int, out *json.Encoder) error {
 				he = s.HandleMessageEditOrder(&fsm.MessageEditOrder{OrderId: raw(l.Id), ChainId: chain, AmountForSale: amt, RequestedAmount: 78, SellerReceiveAddress: c.accts[who].Bytes()})
 			case op < 6:
 				l.Op, l.Id = "delete", pickId()
+				if scripted != 0 {
+					l.Id = scripted
+				}
 				he = s.HandleMessageDeleteOrder(&fsm.MessageDeleteOrder{OrderId: raw(l.Id), ChainId: chain})
 			default: // a certificate with lock / reset / close instructions, duplicates and conflicts included
 				l.Op = "cert"
